@@ -390,11 +390,11 @@ def reloctwins(cfg=None, reopen_ok=False):
         ops.append(dict(x, d=-1, reuse=0))          # G/X, depth 8: relocated
         ops.append(dict(fx, d=-1))
         ops.append(dict(h, d=6, reuse=0))           # H next to G
-        ops.append(dict(x2, d=-1, reuse=7))         # H/X: pool holds the six of the chain, G, X, H -> index 7 is X
+        ops.append(dict(x2, d=-1, reuse=7, twin=1))         # H/X: pool holds the six of the chain, G, X, H -> index 7 is X
         ops.append(dict(fx2, d=-1))
         if third:
             ops.append(dict(h, d=6, reuse=0, salt=(h.get('salt', 0) + 1) % 1000))
-            ops.append(dict(x2, d=-1, reuse=7, salt=(x2.get('salt', 0) + 1) % 1000))
+            ops.append(dict(x2, d=-1, reuse=7, twin=1, salt=(x2.get('salt', 0) + 1) % 1000))
         return ops + tail
     D = add_dir(ns=st.sampled_from([7, 7, 1, 3]), rsz=st.integers(0, 3), sz=st.integers(0, 2))
     F = add_fp(length=SMALL_LEN, file=st.just(False))
